@@ -8,7 +8,10 @@ import (
 	"testing"
 
 	"github.com/SAP/go-dblib/asetypes"
+	"github.com/SAP/go-dblib/tds"
 	"pgregory.net/rapid"
+	"verif/internal/flatch"
+	"verif/internal/pkggen"
 	rc "verif/internal/refcodec"
 	"verif/internal/valgen"
 	"verif/internal/vh"
@@ -261,4 +264,147 @@ func TestEveryTick(t *testing.T) {
 			return
 		}
 	}
+}
+
+// ---- package leg: the value travels inside a parameter / row package with its format
+
+type pkgLegCase struct {
+	Tok  byte         `json:"fmt_token"` // PARAMFMT, PARAMFMT2 or ROWFMT2 / ROWFMT
+	Cols []rc.Col     `json:"cols"`
+	Vals []valgen.Val `json:"vals"`
+	Cell []rc.Cell    `json:"cells"`
+}
+
+func runPkgLeg(c pkgLegCase) (f *vh.Failure) {
+	cls := "C04/package-leg"
+	defer func() {
+		if r := recover(); r != nil {
+			f = vh.Failf(cls+"-panic", "panic: %v", r)
+		}
+	}()
+	fm := rc.Fmt{Tok: c.Tok, Cols: c.Cols}
+	enc, err := rc.EncodePkg(rc.P{Fmt: &fm}, nil)
+	if err != nil {
+		vh.HarnessBug("encode format: %v", err)
+	}
+	fch := flatch.New(enc.B[1:])
+	fmtPkg, err := pkggen.LibDecode(c.Tok, nil, fch)
+	if err != nil || fch.Left() != 0 {
+		return vh.Failf(cls, "library cannot decode the format package: %v", err)
+	}
+	textFamily := false
+	for _, col := range c.Cols {
+		if col.T == rc.TText || col.T == rc.TImage || col.T == rc.TUnitext || col.T == rc.TXML {
+			textFamily = true
+		}
+	}
+	isRow := fm.IsRow()
+	var wire []byte
+	if textFamily {
+		// a client never sends the text-pointer family: decode direction from reference-encoded rows
+		r := rc.Row{Tok: rc.TokRow, Cells: c.Cell}
+		if !isRow {
+			r.Tok = rc.TokParams
+		}
+		e, err := rc.EncodePkg(rc.P{Row: &r}, &fm)
+		if err != nil {
+			vh.HarnessBug("encode row: %v", err)
+		}
+		wire = e.B
+		vh.Label("package-leg:decode-only")
+	} else {
+		var data tds.Package
+		var fields *[]tds.FieldData
+		if isRow {
+			rp := &tds.RowPackage{}
+			data, fields = rp, &rp.DataFields
+		} else {
+			pp := tds.NewParamsPackage()
+			data, fields = pp, &pp.DataFields
+		}
+		if err := data.(tds.LastPkgAcceptor).LastPkg(fmtPkg); err != nil {
+			return vh.Failf(cls, "LastPkg: %v", err)
+		}
+		if len(*fields) != len(c.Vals) {
+			return vh.Failf(cls, "%d data fields for %d columns", len(*fields), len(c.Vals))
+		}
+		for i, v := range c.Vals {
+			(*fields)[i].SetValue(valgen.ToGo(v))
+		}
+		out := flatch.New(nil)
+		if err := data.WriteTo(out); err != nil {
+			return vh.Failf(classOf(c)+"-package-write", "writing %s inside a %#x package failed: %v", describe(c), c.Tok, err)
+		}
+		wire = out.B
+		vh.Label("package-leg:write-read")
+	}
+	rch := flatch.New(wire[1:])
+	back, err := pkggen.LibDecode(wire[0], fmtPkg, rch)
+	if err != nil || rch.Left() != 0 {
+		return vh.Failf(classOf(c)+"-package-read", "reading back %s: %v (%d bytes left)", describe(c), err, rch.Left())
+	}
+	var got []tds.FieldData
+	switch b := back.(type) {
+	case *tds.RowPackage:
+		got = b.DataFields
+	case *tds.ParamsPackage:
+		got = b.DataFields
+	default:
+		return vh.Failf(cls, "read back a %T", back)
+	}
+	if len(got) != len(c.Vals) {
+		return vh.Failf(cls, "read back %d fields, sent %d", len(got), len(c.Vals))
+	}
+	for i, v := range c.Vals {
+		if textFamily {
+			if err := pkggen.CellEqual(c.Cell[i], c.Cols[i], got[i]); err != nil {
+				return vh.Failf(class(v)+"-package", "field %d: %v", i, err)
+			}
+			continue
+		}
+		if err := valgen.Match(v, got[i].Value()); err != nil {
+			return vh.Failf(class(v)+"-package", "field %d (%s) inside a package: %v", i, valgen.TW{T: v.T, W: v.W}, err)
+		}
+		vh.Label(valgen.Labels(v)...)
+		if valgen.NonZero(v) {
+			vh.NonTrivial("pkg:" + valgen.Key(v))
+		}
+	}
+	return nil
+}
+
+func classOf(c pkgLegCase) string {
+	if len(c.Vals) == 1 {
+		return class(c.Vals[0])
+	}
+	return "C04/package-leg"
+}
+
+func describe(c pkgLegCase) string {
+	s := ""
+	for _, v := range c.Vals {
+		s += fmt.Sprintf("%s(%d bytes) ", valgen.TW{T: v.T, W: v.W}, len(v.B)+len(v.S))
+	}
+	return s
+}
+
+func TestPackageLeg(t *testing.T) {
+	gen := func(rt *rapid.T) pkgLegCase {
+		tok := rapid.SampledFrom([]byte{rc.TokParamFmt, rc.TokParamFmt2, rc.TokRowFmt2, rc.TokRowFmt}).Draw(rt, "fmt")
+		n := rapid.IntRange(1, 4).Draw(rt, "n")
+		if rapid.Bool().Draw(rt, "single") {
+			n = 1
+		}
+		f, cells, vals := pkggen.GenCells(rt, tok, n, false)
+		for i := range f.Cols {
+			// plain formats: the column status byte is C06's subject
+			f.Cols[i].Status &^= rc.ColumnStatus
+		}
+		c := pkgLegCase{Tok: tok, Cols: f.Cols, Vals: vals, Cell: cells}
+		if n == 1 && len(vals[0].B) < 40 && len(vals[0].S) < 40 {
+			vh.Sample("package-leg", c)
+		}
+		return c
+	}
+	vh.Check(t, "TestPackageLeg", vh.N(12000, 300000), gen, runPkgLeg)
 }
